@@ -24,8 +24,9 @@ VARIABLES corpus,   \* classifier -> set of keys
           last,     \* input id -> result record of the most recent Match/MatchFrom on it
           plants,   \* input id -> set of planted copies
           memo,     \* memo key -> result
-          scores    \* input id -> set of accepted score summaries
-cvars == <<corpus, last, plants, memo, scores>>
+          scores,   \* input id -> set of accepted score summaries
+          retained  \* input id -> the candidates the retain loop kept, in order (hook event `retain`)
+cvars == <<corpus, last, plants, memo, scores, retained>>
 
 ONEBITS == "3ff0000000000000"
 Rng(f) == {f[x] : x \in DOMAIN f}
@@ -35,7 +36,7 @@ BagOf(sq)   == [x \in Rng(sq) |-> Cardinality({i \in DOMAIN sq : sq[i] = x})]
 Get(f, k, d) == IF k \in DOMAIN f THEN f[k] ELSE d
 Put(f, k, v) == [x \in DOMAIN f \cup {k} |-> IF x = k THEN v ELSE f[x]]
 
-CInit == corpus = <<>> /\ last = <<>> /\ plants = <<>> /\ memo = <<>> /\ scores = <<>>
+CInit == corpus = <<>> /\ last = <<>> /\ plants = <<>> /\ memo = <<>> /\ scores = <<>> /\ retained = <<>>
 
 ---------------------------------------------------------------------------
 (* C03: nothing below the threshold; every result is well formed *)
@@ -75,8 +76,14 @@ Scored(in, e) ==
            /\ s.cb = m.cb                                  \* bit pattern of 1 - dist/klen, computed by the recorder from s.dist, s.klen
            /\ m.sl = e.lines[m.st + 1] /\ m.el = e.lines[m.et + 1]
 
+(* the returned matches are exactly the candidates the retain loop kept, in their order *)
+FromRetain(in, e) ==
+  in \in DOMAIN retained =>
+     [i \in 1..Len(e.ms) |-> <<e.ms[i].st, e.ms[i].et, e.ms[i].sl, e.ms[i].el>>] = retained[in]
+
 MatchReturn(c, in, e) ==
   /\ e.err = "nil"
+  /\ FromRetain(in, e)
   /\ WellFormed(c, e)
   /\ PureMatch(e)
   /\ PlantedFound(in, e)
@@ -85,17 +92,17 @@ MatchReturn(c, in, e) ==
      ELSE IF e.memo \in DOMAIN memo THEN Proj(e) = memo[e.memo] /\ UNCHANGED memo
      ELSE memo' = Put(memo, e.memo, Proj(e))
   /\ last' = Put(last, in, [ms |-> e.ms, total |-> e.total, one |-> e.one])
-  /\ UNCHANGED <<corpus, plants, scores>>
+  /\ UNCHANGED <<corpus, plants, scores, retained>>
 
 (* C08: a failing reader: the error comes back, and no matches *)
 MatchFail(e) == e.err # "nil" /\ e.err = e.want /\ Len(e.ms) = 0 /\ e.total = 0 /\ UNCHANGED cvars
 
-New(c)         == corpus' = Put(corpus, c, {}) /\ UNCHANGED <<last, plants, memo, scores>>
+New(c)         == corpus' = Put(corpus, c, {}) /\ UNCHANGED <<last, plants, memo, scores, retained>>
 AddContent(c, key, e) == /\ PureGrow(e)
                          /\ corpus' = Put(corpus, c, Get(corpus, c, {}) \cup {key})
-                         /\ UNCHANGED <<last, plants, memo, scores>>
+                         /\ UNCHANGED <<last, plants, memo, scores, retained>>
 NormalizeRet(e) == PureGrow(e) /\ e.docs[1] = e.docs[2] /\ UNCHANGED cvars
-Plant(in, p)   == plants' = Put(plants, in, Get(plants, in, {}) \cup {p}) /\ UNCHANGED <<corpus, last, memo, scores>>
+Plant(in, p)   == plants' = Put(plants, in, Get(plants, in, {}) \cup {p}) /\ UNCHANGED <<corpus, last, memo, scores, retained>>
 
 ---------------------------------------------------------------------------
 (* C02: an edit script, checked linearly.  ops[i] = <<type, n>> with type in {"=", "-", "+"}:
@@ -138,7 +145,48 @@ ScoreRet(in, e) ==
   /\ ScoreOK(e)
   /\ scores' = Put(scores, in, Get(scores, in, {}) \cup
                    {[doc |-> e.doc, st |-> e.ts + e.so, et |-> e.te - e.eo - 1, dist |-> e.dist, klen |-> e.klen, cb |-> e.cb]})
-  /\ UNCHANGED <<corpus, last, plants, memo>>
+  /\ UNCHANGED <<corpus, last, plants, memo, retained>>
+
+---------------------------------------------------------------------------
+(* The retain loop of match(), transcribed as built, on the candidates recorded by the `retain` hook.
+   A candidate is [cr, wr, kr, sl, el, st, et]: rank of its confidence, rank of float64(et - st) * confidence
+   (the "token density" the loop compares, ranked by the recorder with the code's own float expression),
+   rank of (MatchType, Name, Variant) in Go's string order, lines, token span. *)
+CContains(a, b) == a.sl <= b.sl /\ a.el >= b.el
+CBetween(x, lo, hi) == lo <= x /\ x <= hi
+COverlaps(a, b) == CBetween(a.sl, b.sl, b.el) \/ CBetween(a.el, b.sl, b.el)
+(* scan of the earlier candidates for candidate i: <<keep, proposals>> *)
+RECURSIVE Scan(_, _, _, _, _)
+Scan(cs, ret, i, j, props) ==
+  IF j >= i THEN <<TRUE, props>>
+  ELSE LET c == cs[i]  o == cs[j] IN
+       IF CContains(c, o) /\ ret[j]
+       THEN IF c.wr > o.wr THEN Scan(cs, ret, i, j + 1, props \cup {j})
+            ELSE IF o.wr > c.wr THEN <<FALSE, props>>
+            ELSE Scan(cs, ret, i, j + 1, props)
+       ELSE IF COverlaps(c, o) /\ ret[j]
+       THEN IF c.sl # o.el THEN <<FALSE, props>> ELSE Scan(cs, ret, i, j + 1, props)
+       ELSE Scan(cs, ret, i, j + 1, props)
+RECURSIVE RetainFrom(_, _, _)
+RetainFrom(cs, ret, i) ==
+  IF i > Len(cs) THEN ret
+  ELSE LET r == Scan(cs, ret, i, 1, {}) IN
+       IF r[1] THEN RetainFrom(cs, [j \in 1..Len(cs) |-> IF j = i THEN TRUE ELSE IF j \in r[2] THEN FALSE ELSE ret[j]], i + 1)
+       ELSE RetainFrom(cs, ret, i + 1)
+RetainLoop(cs) == RetainFrom(cs, [j \in 1..Len(cs) |-> FALSE], 1)
+(* Matches.Less as a total order (fixes 8eb3532, de39304): confidence desc, start asc, end desc, identity, lines *)
+CLess(a, b) == \/ a.cr > b.cr
+               \/ a.cr = b.cr /\ a.st < b.st
+               \/ a.cr = b.cr /\ a.st = b.st /\ a.et > b.et
+               \/ a.cr = b.cr /\ a.st = b.st /\ a.et = b.et /\ a.kr < b.kr
+               \/ a.cr = b.cr /\ a.st = b.st /\ a.et = b.et /\ a.kr = b.kr /\ a.sl < b.sl
+               \/ a.cr = b.cr /\ a.st = b.st /\ a.et = b.et /\ a.kr = b.kr /\ a.sl = b.sl /\ a.el < b.el
+RetainRet(in, e) ==
+  /\ \A i \in 1..(Len(e.cands) - 1) : ~CLess(e.cands[i + 1], e.cands[i])             \* sorted
+  /\ e.bits = RetainLoop(e.cands)                                                       \* the loop kept what the transcription keeps
+  /\ LET idx  == SelectSeq([i \in 1..Len(e.cands) |-> i], LAMBDA i : e.bits[i])
+     IN retained' = Put(retained, in, [n \in 1..Len(idx) |-> <<e.cands[idx[n]].st, e.cands[idx[n]].et, e.cands[idx[n]].sl, e.cands[idx[n]].el>>])
+  /\ UNCHANGED <<corpus, last, plants, memo, scores>>
 
 ---------------------------------------------------------------------------
 (* Metamorphic relations (C05 C06 C07 C08 C11 C12): result b must be result a moved by dtok tokens and
